@@ -507,6 +507,28 @@ func (d *driver) exec(st step) {
 	case "self-unsolicited", "self-again":
 		w.presenceItem(d.occupant(st.Room), "", "", true, st.Aff, st.Role, codes(st, 110)...)
 		d.countItem(st, "")
+	case "late-error", "late-self":
+		// a second answer, of the other kind, to a request whose call is back
+		cl := d.calls[st.Label]
+		if cl == nil || cl.reqID == "" {
+			break
+		}
+		back := false
+		select {
+		case <-cl.done:
+			back = true
+		default:
+		}
+		rq, ok := w.requestSeen(cl.reqID, 0)
+		if !back || !ok {
+			break // (only after the call has returned, and if its request went out)
+		}
+		if st.Op == "late-error" {
+			w.errorPresence(rq.Addr, rq.ID, errTypeOf(st.Cond), st.Cond)
+		} else {
+			w.presenceItem(rq.Addr, "", rq.ID, true, st.Aff, st.Role, 110)
+		}
+		d.c.Count("late_answers_of_the_other_kind", 1)
 	case "error":
 		if cl := d.calls[st.Label]; cl != nil && cl.reqID != "" {
 			if rq, ok := w.requestSeen(cl.reqID, 0); ok {
